@@ -125,6 +125,236 @@ example : (Pk.attempt progLookLoop1 hayAab 5 0).summary = .outOfFuel := by decid
 
 
 
+/-! ## (c) The stack bound -/
+
+/-- Local fact 1: one instruction (`Bt.step`) that continues grows the backtrack stack by at most 3
+records (`enterLoop`, greedy: `SetLoopData`, `SetPosition`, `SetLoopData`); one that backtracks by at
+most 1 (`enterLoop` whose `run_loop` fails has pushed its `SetLoopData`). -/
+theorem bt_step_size (prog : Prog) (inp : Input) (ip pos : Nat) (fwd : Bool) (st : Bt.State)
+    (bts : Array Bt.BtInsn) :
+    (∀ ip' p st' bts', Bt.step prog inp ip pos fwd st bts = .cont ip' p st' bts' →
+      bts'.size ≤ bts.size + 3) ∧
+    (∀ st' bts', Bt.step prog inp ip pos fwd st bts = .back st' bts' → bts'.size ≤ bts.size + 1) :=
+  ⟨fun _ _ _ _ h => Bt.step_cont_size h, fun _ _ h => Bt.step_back_size h⟩
+
+example : Bt.step progLoop hayAab 0 0 true (Bt.freshState progLoop 0) #[.exhausted]
+    = .cont 1 0 { loops := #[{ iters := 1, entry := 0 }], groups := #[{ start := none, end_ := none }] }
+        #[.exhausted, .setLoopData 0 { iters := 0, entry := 0 }, .setPosition 9 0,
+          .setLoopData 0 { iters := 0, entry := 0 }] := by rfl
+
+/-- Local fact 2: a resuming `try_backtrack` grows the stack by at most 1 (the `EnterNonGreedyLoop`
+record is replaced and one `SetLoopData` is pushed). -/
+theorem bt_tryBacktrack_size (prog : Prog) (inp : Input) (fwd : Bool) (st : Bt.State)
+    (bts : Array Bt.BtInsn) (ip pos : Nat) (st' : Bt.State) (bts' : Array Bt.BtInsn)
+    (h : Bt.tryBacktrack prog inp fwd st bts = .resumed ip pos st' bts') :
+    bts'.size ≤ bts.size + 1 :=
+  (Bt.tryBacktrack_spec h).size_le
+
+/-- Local fact 3: a look-around instruction saves `endGroup - startGroup ≤ Bt.maxPush prog` groups;
+`Bt.maxPush prog = max 3 (max over look-around instructions of endGroup - startGroup)`. -/
+theorem bt_maxPush_spec (prog : Prog) :
+    3 ≤ Bt.maxPush prog ∧
+    (∀ (ip : Nat) (neg : Bool) (sg eg k : Nat),
+      prog.insns[ip]? = some (Insn.lookahead neg sg eg k) → eg - sg ≤ Bt.maxPush prog) ∧
+    (∀ (ip : Nat) (neg : Bool) (sg eg k : Nat),
+      prog.insns[ip]? = some (Insn.lookbehind neg sg eg k) → eg - sg ≤ Bt.maxPush prog) :=
+  ⟨Bt.three_le_maxPush prog,
+   fun _ _ _ _ _ h => Bt.insnPush_le_maxPush (i := Insn.lookahead _ _ _ _) h,
+   fun _ _ _ _ _ h => Bt.insnPush_le_maxPush (i := Insn.lookbehind _ _ _ _) h⟩
+
+example : Bt.maxPush progLookLoop1 = 3 := by decide +kernel
+
+/-- **Backtracker stack bound, general form.** If `Bt.run`, started with stack `bts` and counters
+`steps`, `peak`, ends in `matched`/`failed` with counters `steps'`, `peak'`, then at least one tick
+happened and `peak' ≤ max peak (bts.size + k * (steps' - steps - 1))`, `k = Bt.maxPush prog`:
+every tick adds at most `k` records. Nested look-around runs (fresh stack `[Exhausted]`) included.
+No hypothesis on the program. -/
+theorem bt_run_peak_bound (prog : Prog) (inp : Input) (limit sf ip pos : Nat) (fwd : Bool)
+    (st : Bt.State) (bts : Array Bt.BtInsn) (steps peak : Nat) :
+    (∀ p st' steps' peak',
+      Bt.run prog inp limit sf ip pos fwd st bts steps peak = .matched p st' steps' peak' →
+      steps < steps' ∧ peak' ≤ max peak (bts.size + Bt.maxPush prog * (steps' - steps - 1))) ∧
+    (∀ st' steps' peak',
+      Bt.run prog inp limit sf ip pos fwd st bts steps peak = .failed st' steps' peak' →
+      steps < steps' ∧ peak' ≤ max peak (bts.size + Bt.maxPush prog * (steps' - steps - 1))) :=
+  ⟨fun _ _ s' k' h => Bt.run_peak_le prog inp limit sf ip pos fwd st bts steps peak s' k'
+      (by rw [h]; rfl),
+   fun _ s' k' h => Bt.run_peak_le prog inp limit sf ip pos fwd st bts steps peak s' k'
+      (by rw [h]; rfl)⟩
+
+/-- **Backtracker stack bound for one attempt**: `peak ≤ 1 + k * (steps - 1)`. -/
+theorem bt_tryAtPos_peak_bound (prog : Prog) (inp : Input) (fuel ip pos : Nat) (fwd : Bool)
+    (st : Bt.State) :
+    (∀ p st' steps' peak', Bt.tryAtPos prog inp fuel ip pos fwd st = .matched p st' steps' peak' →
+      1 ≤ steps' ∧ peak' ≤ 1 + Bt.maxPush prog * (steps' - 1)) ∧
+    (∀ st' steps' peak', Bt.tryAtPos prog inp fuel ip pos fwd st = .failed st' steps' peak' →
+      1 ≤ steps' ∧ peak' ≤ 1 + Bt.maxPush prog * (steps' - 1)) :=
+  ⟨fun _ _ s' k' h => Bt.tryAtPos_peak_le prog inp fuel ip pos fwd st s' k' (by rw [h]; rfl),
+   fun _ s' k' h => Bt.tryAtPos_peak_le prog inp fuel ip pos fwd st s' k' (by rw [h]; rfl)⟩
+
+/-- Non-vacuity: `(a|b)*c` on `aab` fails after 33 ticks with peak 24 `≤ 1 + 3 * 32`. -/
+example : (Bt.tryAtPos progLoop hayAab 40 0 0 true (Bt.freshState progLoop 0)).summary
+    = .failed 33 24 := by decide +kernel
+
+/-- **PikeVM stack bound, general form.** Every tick adds at most one state (`Split`):
+`peak' ≤ max peak (states.size + (steps' - steps) - 1)`. No hypothesis on the program. -/
+theorem pk_runStates_peak_bound (prog : Prog) (inp : Input) (limit sf : Nat)
+    (states : Array Pk.State) (fwd : Bool) (steps peak : Nat) :
+    (∀ p st' steps' peak',
+      Pk.runStates prog inp limit sf states fwd steps peak = .matched p st' steps' peak' →
+      steps ≤ steps' ∧ peak' ≤ max peak (states.size + (steps' - steps) - 1)) ∧
+    (∀ steps' peak',
+      Pk.runStates prog inp limit sf states fwd steps peak = .failed steps' peak' →
+      steps ≤ steps' ∧ peak' ≤ max peak (states.size + (steps' - steps) - 1)) :=
+  ⟨fun _ _ s' k' h => Pk.runStates_peak_le prog inp limit sf states fwd steps peak s' k'
+      (by rw [h]; rfl),
+   fun s' k' h => Pk.runStates_peak_le prog inp limit sf states fwd steps peak s' k'
+      (by rw [h]; rfl)⟩
+
+/-- **PikeVM stack bound for one attempt**: `peak ≤ steps`. -/
+theorem pk_tryAtPos_peak_bound (prog : Prog) (inp : Input) (fuel : Nat) (init : Pk.State)
+    (fwd : Bool) :
+    (∀ p st' steps' peak', Pk.tryAtPos prog inp fuel init fwd = .matched p st' steps' peak' →
+      peak' ≤ steps') ∧
+    (∀ steps' peak', Pk.tryAtPos prog inp fuel init fwd = .failed steps' peak' → peak' ≤ steps') :=
+  ⟨fun _ _ s' k' h => Pk.tryAtPos_peak_le prog inp fuel init fwd s' k' (by rw [h]; rfl),
+   fun s' k' h => Pk.tryAtPos_peak_le prog inp fuel init fwd s' k' (by rw [h]; rfl)⟩
+
+example : (Pk.tryAtPos progLoop hayAab 40 (Pk.initState progLoop 0 0) true).summary
+    = .failed 33 8 := by decide +kernel
+
+/-! ## (b) Forward (loop-free) programs terminate within `(L + 3)^(n + 1)` ticks
+
+`forwardProg prog` (decidable, `Proofs/Lemmas/Termination.lean`): no `enterLoop`/`loopAgain`
+instruction; every `jump t`, `alt s` and look-around continuation `k` at index `j` has target `> j`.
+`loop1` (single-char loops) and look-arounds are allowed. `wfProg` is **not** assumed.
+`tickB n L ip = (L + 3)^(n + 1 - ip)`. -/
+
+example : forwardProg progLookLoop1 = true := by decide
+example : forwardProg progLookbehind = true := by decide
+example : forwardProg progLoop = false := by decide
+example : wfProg progLookLoop1 = true := by decide +kernel
+
+/-- **Backtracker, general form.** With `Φ = Bt.potential prog inp fwd ip bts`
+`= tickB n L ip + Σ_{r ∈ bts} Bt.cost n L fwd r`
+(`cost (SetPosition ip' _) = tickB ip'`,
+`cost (GreedyLoop1Char c _ max) = (if fwd then max else L - max) * tickB c`,
+`cost (NonGreedyLoop1Char c min _) = (if fwd then L - min else min) * tickB c`, other records `0`):
+if `Φ ≤ sf` and `steps + Φ ≤ limit` then the run does not return `.outOfFuel` and a
+`matched`/`failed` outcome has `steps' ≤ steps + Φ` (every tick decreases the potential). -/
+theorem bt_run_terminates (prog : Prog) (hf : forwardProg prog = true) (inp : Input)
+    (limit sf ip pos : Nat) (fwd : Bool) (st : Bt.State) (bts : Array Bt.BtInsn) (steps peak : Nat)
+    (hsf : Bt.potential prog inp fwd ip bts ≤ sf)
+    (hlimit : steps + Bt.potential prog inp fwd ip bts ≤ limit) :
+    Bt.run prog inp limit sf ip pos fwd st bts steps peak ≠ .outOfFuel ∧
+    (∀ p st' steps' peak',
+      Bt.run prog inp limit sf ip pos fwd st bts steps peak = .matched p st' steps' peak' →
+      steps' ≤ steps + Bt.potential prog inp fwd ip bts) ∧
+    (∀ st' steps' peak',
+      Bt.run prog inp limit sf ip pos fwd st bts steps peak = .failed st' steps' peak' →
+      steps' ≤ steps + Bt.potential prog inp fwd ip bts) := by
+  have h := Bt.run_terminates prog hf inp limit sf ip pos fwd st bts steps peak hsf hlimit
+  refine ⟨Bt.Outcome.within_ne h, ?_, ?_⟩
+  · intro p st' s' k' he; rw [he] at h; exact h
+  · intro st' s' k' he; rw [he] at h; exact h
+
+/-- **Backtracker, one attempt.** For a forward program with `n` instructions and a haystack of `L`
+bytes, `Bt.attempt` (= `classicalbacktrack::verif_attempt`, any start position, either input kind,
+well-formed haystack or not) with a tick budget `fuel ≥ (L + 3)^(n + 1)` does not run out of fuel,
+and a `matched`/`failed` outcome used at most `(L + 3)^(n + 1)` ticks. -/
+theorem bt_attempt_terminates (prog : Prog) (hf : forwardProg prog = true) (inp : Input)
+    (fuel pos : Nat) (hfuel : (inp.bytes.size + 3) ^ (prog.insns.size + 1) ≤ fuel) :
+    Bt.attempt prog inp fuel pos ≠ .outOfFuel ∧
+    (∀ p st' steps' peak', Bt.attempt prog inp fuel pos = .matched p st' steps' peak' →
+      steps' ≤ (inp.bytes.size + 3) ^ (prog.insns.size + 1)) ∧
+    (∀ st' steps' peak', Bt.attempt prog inp fuel pos = .failed st' steps' peak' →
+      steps' ≤ (inp.bytes.size + 3) ^ (prog.insns.size + 1)) := by
+  have h := Bt.tryAtPos_terminates prog hf inp fuel 0 pos true (Bt.freshState prog 0)
+    (by simpa [tickB] using hfuel)
+  have e : tickB prog.insns.size inp.bytes.size 0 = (inp.bytes.size + 3) ^ (prog.insns.size + 1) := by
+    simp [tickB]
+  rw [e] at h
+  refine ⟨Bt.Outcome.within_ne h, ?_, ?_⟩
+  · intro p st' s' k' he
+    have : Bt.tryAtPos prog inp fuel 0 pos true (Bt.freshState prog 0) = .matched p st' s' k' := he
+    rw [this] at h; exact h
+  · intro st' s' k' he
+    have : Bt.tryAtPos prog inp fuel 0 pos true (Bt.freshState prog 0) = .failed st' s' k' := he
+    rw [this] at h; exact h
+
+/-- Non-vacuity: `(?=(a))a*b|c` on `aab` (12 instructions, 3 bytes): matched after 10 ticks. -/
+example : (Bt.attempt progLookLoop1 hayAab 20 0).summary = .matched 3 10 4 := by decide +kernel
+example : (Bt.attempt progLookbehind hayAab 20 0).summary = .matched 3 7 2 := by decide +kernel
+
+/-- **PikeVM, general form.** Hypotheses: `forwardProg prog` and `Pk.loop1Scm prog` (every `loop1`
+is followed by an instruction accepted as single-char matcher — `wfProg` clause I9; the PikeVM runs
+the body as an ordinary instruction, and a body that consumes nothing would make the model spin).
+`Φ = Pk.costSum prog L fwd states = Σ_{s ∈ states} Pk.cost prog L fwd s`, where
+`cost s = (rem s.pos + 1) * (1 + tickB (s.ip + 2))` if `s.ip` is a `loop1`
+(`rem pos = L - pos` forwards, `min pos L` backwards), and `tickB s.ip` otherwise.
+If `Φ + 1 ≤ sf` and `steps + Φ ≤ limit`, the run does not return `.outOfFuel` and
+`steps' ≤ steps + Φ`. -/
+theorem pk_runStates_terminates (prog : Prog) (hf : forwardProg prog = true)
+    (hl1 : Pk.loop1Scm prog = true) (inp : Input) (limit sf : Nat) (states : Array Pk.State)
+    (fwd : Bool) (steps peak : Nat)
+    (hsf : Pk.costSum prog inp.bytes.size fwd states + 1 ≤ sf)
+    (hlimit : steps + Pk.costSum prog inp.bytes.size fwd states ≤ limit) :
+    Pk.runStates prog inp limit sf states fwd steps peak ≠ .outOfFuel ∧
+    (∀ p st' steps' peak',
+      Pk.runStates prog inp limit sf states fwd steps peak = .matched p st' steps' peak' →
+      steps' ≤ steps + Pk.costSum prog inp.bytes.size fwd states) ∧
+    (∀ steps' peak',
+      Pk.runStates prog inp limit sf states fwd steps peak = .failed steps' peak' →
+      steps' ≤ steps + Pk.costSum prog inp.bytes.size fwd states) := by
+  have h := Pk.runStates_terminates prog hf hl1 inp limit sf states fwd steps peak hsf hlimit
+  refine ⟨Pk.Outcome.within_ne h, ?_, ?_⟩
+  · intro p st' s' k' he; rw [he] at h; exact h
+  · intro s' k' he; rw [he] at h; exact h
+
+/-- **PikeVM, one attempt.** `Pk.attempt` (= `pikevm::verif_attempt`) with
+`fuel ≥ (L + 3)^(n + 1) + 1` does not run out of fuel and uses at most `(L + 3)^(n + 1)` ticks.
+(The `+ 1` is the structural fuel of the model: one more unfolding to see the empty stack; the tick
+budget itself needs only `(L + 3)^(n + 1)`, see `pk_runStates_terminates`.) -/
+theorem pk_attempt_terminates (prog : Prog) (hf : forwardProg prog = true)
+    (hl1 : Pk.loop1Scm prog = true) (inp : Input)
+    (fuel pos : Nat) (hfuel : (inp.bytes.size + 3) ^ (prog.insns.size + 1) + 1 ≤ fuel) :
+    Pk.attempt prog inp fuel pos ≠ .outOfFuel ∧
+    (∀ p st' steps' peak', Pk.attempt prog inp fuel pos = .matched p st' steps' peak' →
+      steps' ≤ (inp.bytes.size + 3) ^ (prog.insns.size + 1)) ∧
+    (∀ steps' peak', Pk.attempt prog inp fuel pos = .failed steps' peak' →
+      steps' ≤ (inp.bytes.size + 3) ^ (prog.insns.size + 1)) := by
+  have e : tickB prog.insns.size inp.bytes.size (Pk.initState prog pos pos).ip
+      = (inp.bytes.size + 3) ^ (prog.insns.size + 1) := by
+    simp [tickB, Pk.initState]
+  have h := Pk.tryAtPos_terminates prog hf hl1 inp fuel (Pk.initState prog pos pos) true
+    (by rw [e]; exact hfuel)
+  rw [e] at h
+  refine ⟨Pk.Outcome.within_ne h, ?_, ?_⟩
+  · intro p st' s' k' he
+    have : Pk.tryAtPos prog inp fuel (Pk.initState prog pos pos) true = .matched p st' s' k' := he
+    rw [this] at h; exact h
+  · intro s' k' he
+    have : Pk.tryAtPos prog inp fuel (Pk.initState prog pos pos) true = .failed s' k' := he
+    rw [this] at h; exact h
+
+example : Pk.loop1Scm progLookLoop1 = true := by decide
+example : Pk.loop1Scm progLookbehind = true := by decide
+example : (Pk.attempt progLookLoop1 hayAab 30 0).summary = .matched 3 12 4 := by decide +kernel
+example : (Pk.attempt progLookbehind hayAab 30 0).summary = .matched 3 8 2 := by decide +kernel
+
+/-- The hypothesis `loop1Scm` is needed for the PikeVM *model*: a (not well-formed) forward program
+whose `loop1` body is a `jump` to the next instruction never terminates — the state stays at the
+`loop1` with the same position. (Such a program is never emitted: `wfProg` rejects it, and the
+backtracker answers `.error "…Missing SCM"`.) -/
+def progBadLoop1 : Prog :=
+  { insns := #[.loop1 0 none true, .jump 2, .goal],
+    brackets := #[], loops := 0, groups := 0, flags := {}, names := [], startPred := .arbitrary }
+
+example : forwardProg progBadLoop1 = true ∧ Pk.loop1Scm progBadLoop1 = false ∧
+    wfProg progBadLoop1 = false := by decide +kernel
+example : (Pk.attempt progBadLoop1 hayAab 200 0).summary = .outOfFuel := by decide +kernel
+example : (Bt.attempt progBadLoop1 hayAab 200 0).summary = .error := by decide +kernel
+
 /-! ## Axioms -/
 
 #print axioms bt_run_fuel_mono
@@ -134,5 +364,16 @@ example : (Pk.attempt progLookLoop1 hayAab 5 0).summary = .outOfFuel := by decid
 #print axioms pk_runStates_fuel_mono
 #print axioms pk_tryAtPos_fuel_mono
 #print axioms pk_attempt_fuel_mono
+#print axioms bt_step_size
+#print axioms bt_tryBacktrack_size
+#print axioms bt_maxPush_spec
+#print axioms bt_run_peak_bound
+#print axioms bt_tryAtPos_peak_bound
+#print axioms pk_runStates_peak_bound
+#print axioms pk_tryAtPos_peak_bound
+#print axioms bt_run_terminates
+#print axioms bt_attempt_terminates
+#print axioms pk_runStates_terminates
+#print axioms pk_attempt_terminates
 
 end Regress.C05
